@@ -3,13 +3,13 @@ namespace Acra.Props.C13
 open Acra.Py Acra.Model.Extra Acra.Lemmas.Extra
 open Acra.Gen.ExtraH264 Acra.Gen.ExtraADTS Acra.Gen.ExtraSEI Acra.Gen.ExtraPA Acra.Gen.ExtraNet
 
-/-! State independence of the `extra` decoders.  For every class the RESULT (value / which exception) is a
-    function of the bytes alone.  For the object left behind the full statement
-    "`unpack t buf = unpack u buf` for arbitrary prior states `t`, `u`" holds for `ADTS` and
-    `ParserAligned.ARINC429` (up to the one attribute `unpack` never writes), and is FALSE of
-    `STANAG4609_SEI`, `NAL` and `H264`: their `unpack` assigns attributes along the path the data takes and
-    never resets the others.  For those the faithful statement is proved (`…_partial`: the exact list of
-    attributes that survive) together with a concrete witness of the stale read. -/
+/-! State independence of the `extra` decoders: a successful `unpack` leaves ANY object exactly as it leaves
+    any other (in particular a new one), and the result (value / which exception) is a function of the bytes
+    alone.  The only attributes a prior state can show through are the ones no `unpack` statement writes and
+    that belong to someone else: `ADTS.version`, `NAL.offset` (assigned by the container, `H264.unpack`).
+    For `STANAG4609_SEI`, `NAL` and `H264` this holds since the fixes b3ec533 / 4a5c19a (reset at the top of
+    `unpack`); before them the models had only `…_partial` statements and stale-read witnesses, which are
+    kept below as examples showing that the same histories are now clean. -/
 
 /-! ### ADTS -/
 
@@ -52,52 +52,37 @@ theorem SEI_unpack_result_independent (t u : SEI) (buf : Bytes) : (SEI.unpack t 
   repeat' split
   all_goals rfl
 
-/- Full statement (FALSE of the code):
-     theorem SEI_unpack_state_independent (t u : SEI) (buf : Bytes) (h : (SEI.unpack t buf).2 = .ok ()) :
-         SEI.unpack t buf = SEI.unpack u buf
-   What is missing: `unpack` would have to reset `unregdata`, `status`, `seconds`, `nanoseconds`, `time`, `stanag`
-   (and `microseconds`, which it never writes) before decoding.  Witness: `SEI_unpack_stale_witness`. -/
-
-/-- what does hold: the object left behind depends on the prior state only through the seven attributes a
-    shorter path does not write -/
-theorem SEI_unpack_state_independent_partial (t u : SEI) (buf : Bytes)
-    (h1 : t.unregdata = u.unregdata) (h2 : t.status = u.status) (h3 : t.seconds = u.seconds)
-    (h4 : t.microseconds = u.microseconds) (h5 : t.nanoseconds = u.nanoseconds) (h6 : t.time = u.time)
-    (h7 : t.stanag = u.stanag) (h : (SEI.unpack t buf).2 = .ok ()) : SEI.unpack t buf = SEI.unpack u buf := by
+/-- every attribute is reset or assigned on every successful path: the object left behind is a function
+    of the bytes -/
+theorem SEI_unpack_state_independent (t u : SEI) (buf : Bytes) (h : (SEI.unpack t buf).2 = .ok ()) :
+    SEI.unpack t buf = SEI.unpack u buf := by
   revert h
   simp only [SEI.unpack, SEI.signed]
   repeat' split
   all_goals simp_all
 
-/-- a signed time message (`stanag` comes out `True` from a new object) overwrites everything except
-    `microseconds`: decoding it into ANY object gives the new object's result with the old `microseconds` -/
-theorem SEI_unpack_signed_overwrites (t : SEI) (buf : Bytes) (h : (SEI.unpack SEI.fresh buf).2 = .ok ())
-    (hs : (SEI.unpack SEI.fresh buf).1.stanag = true) :
-    SEI.unpack t buf = ({ (SEI.unpack SEI.fresh buf).1 with microseconds := t.microseconds }, .ok ()) := by
-  revert h hs
-  simp only [SEI.unpack, SEI.signed, SEI.fresh]
+/-- even a FAILED decode leaves a state that depends on the old one only through `payloadtype` /
+    `payloadsize` (untouched when the very first read fails) -/
+theorem SEI_unpack_state_independent_on_error (t u : SEI) (buf : Bytes)
+    (h1 : t.payloadtype = u.payloadtype) (h2 : t.payloadsize = u.payloadsize) :
+    SEI.unpack t buf = SEI.unpack u buf := by
+  simp only [SEI.unpack, SEI.signed]
   repeat' split
   all_goals simp_all
 
-/-- a signed time message satisfying the two hypotheses above -/
+example : (SEI.unpack { SEI.fresh with stanag := true, status := some 9 } [4, 0]).2 = .ok () := by rfl
+
+/-- the former stale read (signed time, then a payload of another type into the same object): the second
+    decode now leaves exactly what a new object gets -/
 example :
     let signed : Bytes := [5, 28, 0x4D, 0x49, 0x53, 0x50, 0x6D, 0x69, 0x63, 0x72, 0x6F, 0x73, 0x65, 0x63, 0x74, 0x69, 0x6D, 0x65,
                            0x1F, 0, 0, 0xFF, 0, 0, 0xFF, 0, 0, 0xFF, 0, 5]
-    (SEI.unpack SEI.fresh signed).2.isOk = true ∧ (SEI.unpack SEI.fresh signed).1.stanag = true :=
-  ⟨by decide +kernel, by decide +kernel⟩
-/-- objects agreeing on the seven surviving attributes, and a buffer both accept -/
-example : (SEI.unpack { SEI.fresh with payloadtype := some 9 } [4, 0]).2 = .ok () := by rfl
-
-/-- the stale read: an object that decoded a signed time, then a payload of another type, still claims
-    `stanag = True` and shows the old time; a new object decoding the same two bytes does not -/
-theorem SEI_unpack_stale_witness :
-    let signed : Bytes := [5, 28, 0x4D, 0x49, 0x53, 0x50, 0x6D, 0x69, 0x63, 0x72, 0x6F, 0x73, 0x65, 0x63, 0x74, 0x69, 0x6D, 0x65,
-                           0x1F, 0, 0, 0xFF, 0, 0, 0xFF, 0, 0, 0xFF, 0, 5]
     let other : Bytes := [4, 0]
-    (SEI.unpack (SEI.unpack SEI.fresh signed).1 other).2 = .ok () ∧
-    (SEI.unpack (SEI.unpack SEI.fresh signed).1 other).1.stanag = true ∧
-    (SEI.unpack SEI.fresh other).1.stanag = false := by
-  refine ⟨by rfl, by decide +kernel, by decide +kernel⟩
+    (SEI.unpack SEI.fresh signed).1.stanag = true ∧
+    (SEI.unpack (SEI.unpack SEI.fresh signed).1 other).1.stanag = false ∧
+    (SEI.unpack (SEI.unpack SEI.fresh signed).1 other).1.time.isSome = false ∧
+    (SEI.unpack (SEI.unpack SEI.fresh signed).1 other).1 = (SEI.unpack SEI.fresh other).1 :=
+  ⟨by decide +kernel, by decide +kernel, by decide +kernel, by decide +kernel⟩
 
 /-! ### NAL -/
 
@@ -106,39 +91,25 @@ theorem NAL_unpack_result_independent (t u : NAL) (buf : Bytes) : (NAL.unpack t 
   repeat' split
   all_goals simp_all
 
-/- Full statement (FALSE of the code):
-     theorem NAL_unpack_state_independent (t u : NAL) (buf : Bytes) (ho : t.offset = u.offset)
-         (h : (NAL.unpack t buf).2 = .ok ()) : NAL.unpack t buf = NAL.unpack u buf
-   What is missing: `self.sei = None` for a NAL that is not an SEI.  Witness: `NAL_unpack_stale_witness`. -/
-
-/-- `type` and `size` are always written, `offset` never; `sei` is written exactly for an SEI NAL -/
-theorem NAL_unpack_state_independent_partial (t u : NAL) (buf : Bytes) (ho : t.offset = u.offset)
-    (hs : t.sei = u.sei) (h : (NAL.unpack t buf).2 = .ok ()) : NAL.unpack t buf = NAL.unpack u buf := by
+/-- `type`, `size` and `sei` are written on every successful path (`sei` is `None` or a NEW object decoded from
+    the bytes); `offset` is the container's and is never written -/
+theorem NAL_unpack_state_independent (t u : NAL) (buf : Bytes) (ho : t.offset = u.offset)
+    (h : (NAL.unpack t buf).2 = .ok ()) : NAL.unpack t buf = NAL.unpack u buf := by
   revert h
   simp only [NAL.unpack]
   repeat' split
   all_goals simp_all
 
-/-- for an SEI NAL the whole object is a function of the bytes (and of `offset`, which the container owns);
-    the SEI inside is decoded into a NEW object, so it is never stale -/
-theorem NAL_unpack_sei_state_independent (t u : NAL) (buf : Bytes) (ho : t.offset = u.offset)
-    (h : (NAL.unpack t buf).2 = .ok ()) (h6 : (NAL.unpack t buf).1.type = NAL_TYPE_SEI) :
-    NAL.unpack t buf = NAL.unpack u buf := by
-  revert h h6
-  simp only [NAL.unpack]
-  repeat' split
-  all_goals simp_all
+example : (NAL.unpack NAL.fresh [0, 0, 0, 1, 6, 4, 0]).2 = .ok () := by rfl
 
-example : (NAL.unpack NAL.fresh [0, 0, 0, 1, 6, 4, 0]).2 = .ok () ∧
-    (NAL.unpack NAL.fresh [0, 0, 0, 1, 6, 4, 0]).1.type = NAL_TYPE_SEI := ⟨by rfl, by decide +kernel⟩
-
-theorem NAL_unpack_stale_witness :
+/-- the former stale read (an SEI NAL, then an IDR slice into the same object): `sei` is `None` again -/
+example :
     let seiNal : Bytes := [0, 0, 0, 1, 6, 4, 0]
     let idr : Bytes := [0, 0, 0, 1, 0x65, 0x88]
-    (NAL.unpack (NAL.unpack NAL.fresh seiNal).1 idr).2 = .ok () ∧
-    (NAL.unpack (NAL.unpack NAL.fresh seiNal).1 idr).1.sei.isSome = true ∧
-    (NAL.unpack NAL.fresh idr).1.sei.isSome = false := by
-  refine ⟨by rfl, by rfl, by rfl⟩
+    (NAL.unpack NAL.fresh seiNal).1.sei.isSome = true ∧
+    (NAL.unpack (NAL.unpack NAL.fresh seiNal).1 idr).1.sei.isSome = false ∧
+    (NAL.unpack (NAL.unpack NAL.fresh seiNal).1 idr).1 = (NAL.unpack NAL.fresh idr).1 :=
+  ⟨by decide +kernel, by decide +kernel, by decide +kernel⟩
 
 /-! ### H264 -/
 
@@ -147,16 +118,12 @@ theorem H264_unpack_result_independent (t u : H264) (buf : Bytes) : (H264.unpack
   repeat' split
   all_goals simp_all
 
-/- Full statement (FALSE of a faithful model, though unreachable through `unpack` alone):
-     theorem H264_unpack_state_independent (t u : H264) (buf : Bytes) : H264.unpack t buf = H264.unpack u buf
-   `nals` is created in `__init__` and only ever appended to; as the Python 3 code cannot decode a single NAL
-   the list an object holds is simply whatever was assigned to it. -/
+/-- `unpack` never reads the prior state: result and object are functions of the bytes, on success and on
+    failure alike -/
+theorem H264_unpack_state_independent (t u : H264) (buf : Bytes) : H264.unpack t buf = H264.unpack u buf := rfl
 
-/-- `unpack` never changes the object (see also C08 `H264_unpack_never_decodes`) -/
-theorem H264_unpack_state_independent_partial (t : H264) (buf : Bytes) : (H264.unpack t buf).1 = t := by
-  simp only [H264.unpack]
-  repeat' split
-  all_goals rfl
+/-- a list assigned by the user no longer survives a decode -/
+example : (H264.unpack { nals := [NAL.fresh, NAL.fresh] } [0x61]).1.nals = [] := by decide +kernel
 
 /-! ### IPv6.pack -/
 
